@@ -5,7 +5,10 @@ use white_whale_std::pool_network::asset::{Asset, AssetInfo};
 use crate::state::{store_fee, ALL_TIME_BURNED_FEES};
 use crate::{
     error::VaultError,
-    state::{ALL_TIME_COLLECTED_PROTOCOL_FEES, COLLECTED_PROTOCOL_FEES, CONFIG, LOAN_COUNTER},
+    state::{
+        ALL_TIME_COLLECTED_PROTOCOL_FEES, COLLECTED_PROTOCOL_FEES, CONFIG, LOAN_COUNTER,
+        LOAN_FEES_RETAINED, LOAN_FEES_RETAINED_AT_START,
+    },
 };
 
 pub fn after_trade(
@@ -45,10 +48,23 @@ pub fn after_trade(
     )?;
     let burn_fee = Uint128::try_from(config.fees.burn_fee.compute(Uint256::from(loan_amount)))?;
 
+    // the protocol and flash loan fees of the loans nested in this one are still in the vault's balance, they
+    // are not part of this loan's repayment
+    let loan_depth = LOAN_COUNTER.may_load(deps.storage)?.unwrap_or_default();
+    let fees_retained = LOAN_FEES_RETAINED
+        .may_load(deps.storage)?
+        .unwrap_or_default();
+    let nested_fees = fees_retained.checked_sub(
+        LOAN_FEES_RETAINED_AT_START
+            .may_load(deps.storage, loan_depth)?
+            .unwrap_or(fees_retained),
+    )?;
+
     let required_amount = old_balance
         .checked_add(protocol_fee)?
         .checked_add(flash_loan_fee)?
-        .checked_add(burn_fee)?;
+        .checked_add(burn_fee)?
+        .checked_add(nested_fees)?;
 
     if required_amount > new_balance {
         return Err(VaultError::NegativeProfit {
@@ -62,11 +78,20 @@ pub fn after_trade(
         .checked_sub(old_balance)?
         .checked_sub(protocol_fee)?
         .checked_sub(flash_loan_fee)?
-        .checked_sub(burn_fee)?;
+        .checked_sub(burn_fee)?
+        .checked_sub(nested_fees)?;
 
     // store fees
     store_fee(deps.storage, COLLECTED_PROTOCOL_FEES, protocol_fee)?;
     store_fee(deps.storage, ALL_TIME_COLLECTED_PROTOCOL_FEES, protocol_fee)?;
+
+    LOAN_FEES_RETAINED.save(
+        deps.storage,
+        &fees_retained
+            .checked_add(protocol_fee)?
+            .checked_add(flash_loan_fee)?,
+    )?;
+    LOAN_FEES_RETAINED_AT_START.remove(deps.storage, loan_depth);
 
     // deduct loan counter
     LOAN_COUNTER.update::<_, StdError>(deps.storage, |c| Ok(c.saturating_sub(1)))?;
